@@ -68,8 +68,8 @@ pub(crate) fn try_match_point_job(
 
             Ok(Some(JobInfo(job.clone(), single.clone(), place, ctx.time)))
         }
-        "break" | "reload" | "recharge" => Ok(Some(
-            (1..)
+        "break" | "reload" | "recharge" => {
+            let mut candidates = (1..)
                 .map(|idx| format!("{}_{}_{}_{}", tour.vehicle_id, activity.activity_type, tour.shift_index, idx))
                 .map(|job_id| job_index.get(&job_id))
                 .take_while(|job| job.is_some())
@@ -77,9 +77,21 @@ pub(crate) fn try_match_point_job(
                 .filter_map(|(job, single)| {
                     match_place(&single, false, &ctx).map(|place| JobInfo(job, single, place, ctx.time.clone()))
                 })
-                .next()
-                .ok_or_else(|| format!("cannot match '{}' for '{}'", ctx.act_type, tour.vehicle_id))?,
-        )),
+                .collect::<Vec<_>>();
+
+            // NOTE: more than one break/reload/recharge of the shift can be matched by location, time and tag,
+            // so prefer the one which duration explains the reported time
+            let idx = candidates
+                .iter()
+                .position(|JobInfo(_, _, place, time)| (time.duration() - place.duration).abs() <= 1.)
+                .unwrap_or(0);
+
+            if candidates.is_empty() {
+                return Err(format!("cannot match '{}' for '{}'", ctx.act_type, tour.vehicle_id).into());
+            }
+
+            Ok(Some(candidates.swap_remove(idx)))
+        }
         _ => Err(format!("unknown activity type: {}", activity.activity_type).into()),
     }
 }
